@@ -80,6 +80,7 @@ def run_config(ctx, config):
     G.check_spec(ctx, "convert-stores-equiv-amount", config, U, G.HRU + "convert", set(), [],
                  lambda val: ("val", S.new(S.app("HasRefUnit::equiv_amount", self_, to2), to2)))
     # 4. record axioms
+    G.unit_identity(ctx, config, w)
     n = record_axioms(ctx, w, config)
     ctx.floor("%s: impl Quantity types" % config, n, 19 if config == "f64-all" else 15)
     # 5. overrides of the HasRefUnit / LinearScaledUnit defaults
